@@ -76,7 +76,7 @@ def cfg_fn(rng):
 
 
 def plan(tier, seed):
-    return common.session_plan(PROP, tier, seed, quick=320, thorough=6000)
+    return common.session_plan(PROP, tier, seed, quick=1600, thorough=25000)
 
 
 def run_shard(spec):
